@@ -80,7 +80,7 @@ def check_pair(sink, seed, idx):  # noqa: C901
     rng = gen.case_rng(seed, 'c06', idx)
     rel = RELATIONS[idx % len(RELATIONS)]
     orel = OPT_REL[(idx // len(RELATIONS)) % len(OPT_REL)]
-    profile = gen.PROFILE_NAMES[idx % len(gen.PROFILE_NAMES)]
+    profile = rng.choice(gen.PROFILE_NAMES)  # independent of the relation (an index-modulo choice would tie one relation to one profile)
     d1, _ = gen.gen_desc(rng, profile, 14)
     if rel in ('same', 'reorder'):
         d2 = d1.copy()
@@ -94,6 +94,7 @@ def check_pair(sink, seed, idx):  # noqa: C901
         d2, edit = gen.breaking_edit(d1, rng)
         if d2 is None:
             d2 = d1.copy()
+        sink.count(f'break-edit:{edit}')
     else:
         d2, _ = gen.gen_desc(rng, profile, 14)
     t1, m1 = gen.materialize(d1, rng)
@@ -138,6 +139,7 @@ def check_pair(sink, seed, idx):  # noqa: C901
         if eq12:
             sink.check(all(s == s2 for s in rts.values()), 'transitive', '== is transitive within a namespace', ident)
     sink.cell('rel', rel, orel)
+    sink.cell('rel-profile', rel, profile)
     sink.cell('expected', want)
     sink.case(harness.fp(d1.short(), d2.short(), o1.key(), o2.key()), r1.shape.internal_nodes() >= 2, dict(ident, equal=eq12, s1=str(s1)[:200], s2=str(s2)[:200]))
 
@@ -214,6 +216,9 @@ def run_shard(sink, tier, seed, shard):
 
 
 def finalize(sink, tier, seed):
+    for e in gen.BREAK_EDITS:
+        if e != 'leaf2none':
+            sink.require(f'break-edit:{e}', 20)
     sink.require('equal-pairs', 100)
     sink.require('unequal-pairs', 100)
     sink.require('route-sets')
